@@ -18,17 +18,18 @@ PROP = {
     "lean_modules": ["AxVerif.Model.BTree", "AxVerif.Model.Balance", "AxVerif.Model.Slotted", "AxVerif.Lemmas.BTree", "AxVerif.Lemmas.Balance", "AxVerif.Lemmas.Slotted"],
     "rule": "cases = operation sequences (insert/update/upsert/remove by key bytes and by tuple/search by key bytes and by tuple/scan) on a real "
             "Btree over a raw pager: orders ascending, descending, zig-zag, interleaved, random, duplicate-heavy, delete-all-then-reinsert, "
-            "churn, grow/shrink updates; key types u64, i64, text, composite (i64,text), long text keys that spill into overflow pages; "
+            "churn, grow/shrink updates; key types u64, i64, text, composite (i64,text), long text keys that spill into overflow pages, text keys of mixed sizes (10..370 bytes); "
             "payloads 0 B .. 5 pages; page size {4096, 8192} x min keys {3..8} x siblings per side {1..4}; three sequences of ~2000 operations "
             "build trees of height >= 4. Plus the code's comparator on pairs of realised keys, and split_cells / "
             "compute_best_cell_distribution on random size vectors. All derived from VERIF_SEED. Non-trivial = a sequence of >= 20 "
             "operations (each with a dump judged by checkTree), every comparator / helper case; distinct = distinct case line. "
-            "Region split (tags clean / bigcell): >= 70 % of the sequences keep every cell under ~1/14 of the page (no known finding "
-            "applies, any failure is a violation); the others use large cells and may hit KF-C10-divider-full-copy.",
+            "No known-finding region is left (KF-C10-divider-full-copy was fixed by 5ae85bc): any failure of any case is a violation. The tags "
+            "smallcell / bigcell only record whether a sequence keeps every cell under ~1/14 of the page or uses large cells "
+            "(payloads up to 5 pages, keys that spill into overflow pages, keys of widely different sizes).",
     "assumptions": [
         "keys are modelled as natural numbers (key indices); the harness realises index k as a real key by a monotone map per key type "
-        "(BigUInt k | BigInt k-500 | Blob bits24(k) without trailing '0' | 'x'*(page/2) ++ that | (BigInt k/7-30, Blob bits(k%7))); that "
-        "the code's CellComparator orders realised keys like their indices is tied by the `cmp` cases (200 pairs per run), not proved",
+        "(BigUInt k | BigInt k-500 | Blob bits24(k) without trailing '0' | 'x'*(page/2) ++ that | that ++ 350 blanks when 5 divides k | (BigInt k/7-30, Blob bits(k%7))); that "
+        "the code's CellComparator orders realised keys like their indices is tied by the `cmp` cases (240 pairs per run), not proved",
         "numeric keys stay below 2^53 (the code compares numeric keys through f64: a C19 finding, out of scope here)",
         "a payload is identified by (length, 16-bit seed); the harness checks every byte of every payload it reads back against the pattern "
         "of that identity (both through the tree's own Reassembler for probes/scans and through its own reassembly for dumps)",
@@ -60,10 +61,12 @@ TEXT = {
             "checkTree, and its contents, lookups and scans are compared with the spec map.",
     "design_ref": "DESIGN.md §5 C10",
     "note": "Trusted: Lean kernel + propext/Quot.sound/Classical.choice; facade page parser and harness canonicalisation; key order assumption tied by "
-            "comparator cases. The rebalancer itself is validated per run, not verified. Inside region `bigcell` (30 % of sequences) failures matching "
-            "KF-C10-divider-full-copy are reported as known findings, so a new defect with the same symptom could hide there. Four defects were "
-            "fixed in /repo (defragment overlap, replace moving the free pointer, interior divider taken from a child, empty interior page in the "
-            "left-most descent); their witnesses are replayed on every run.",
+            "comparator cases. The rebalancer itself is validated per run, not verified. Six defects were fixed in /repo (defragment overlap, "
+            "replace moving the free pointer, interior divider taken from a child, empty interior page in the left-most descent, dividers as "
+            "aliasing full copies of leaf cells, update_cell ignoring the space of the replaced cell); their witnesses are replayed on every run. "
+            "Residual risk known from the design of the fix: a parent takes the new dividers of one leaf redistribution before it is rebalanced "
+            "itself; their size is budgeted for 2*siblings+2 of them, a redistribution that produces more pages than that at once could still "
+            "exhaust the parent (not observed in ~2500 stress sequences).",
     "technique": "Lean 4 verified checker (decision procedure + soundness theorem) applied to page-graph dumps of the real tree after every operation; "
                  "differential comparison with a proved-sorted spec map",
 }
